@@ -5,7 +5,7 @@ from harness import core, e1common
 
 PROP = 'C01'
 MODULE = 'Props.C01'
-THEOREMS = ['C01_hits_exact', 'C01_hits_exact_quiescent', 'C01_hits_le_executed', 'C01_nonvacuous', 'C01_selfdisable_drops_line', 'C01_report_shows_reported']
+THEOREMS = ['C01_hits_exact', 'C01_hits_exact_quiescent', 'C01_hits_le_executed', 'C01_nonvacuous', 'C01_selfdisable_drops_line', 'C01_report_shows_reported', 'C01_model_is_generated_core']
 LEVEL = 'proof'
 FEATURES = [{'rec'}, {'gen'}, {'gen', 'rec'}, {'co'}, {'gen', 'co', 'rec', 'mutual'}, set(), {'mutual', 'rec'}, {'gen', 'co'}, {'gen', 'straddle'}, {'selfdisable'}, {'selfdisable', 'gen', 'rec'}]
 
